@@ -45,6 +45,8 @@ def run(ck: Checker, prog: Program, tier: str):
     ck.guard(_statistics, ck, prog)
     ck.guard(_montecarlo, ck, prog)
     ck.guard(_spatial, ck, prog)
+    from .common import check_identity_comparisons as _cic
+    ck.guard(_cic, ck, prog, "C14.R1", "C14")
 
 
 def _statistics(ck: Checker, prog: Program):
